@@ -470,14 +470,52 @@ class NF(object):
                     neg = (poly_scale(u[0], -1), u[1])
                     cn = self.canon_rf(neg)
                     if cn < cu:
+                        # exp(-u) = exp(u)^(-1): kept as a Laurent exponent of the (positive) atom, not as a denominator
                         key = "e:" + cn
-                        a = self.atom(key, tm.mk_fn("exp", tm.mk_neg(t.args[1])))
-                        r = (a[1], a[0])
+                        self.atom(key, tm.mk_fn("exp", tm.mk_neg(t.args[1])))
+                        r = ({((key, lf_const(-1)),): Q(1)}, POLY_ONE)
                     else:
                         r = self.atom("e:" + cu, t)
             else:
                 key = "f:%s(%s)" % (name, ",".join(self.canon_rf(self.nf(a)) for a in t.args[1:]))
                 r = self.atom(key, t)
+        elif op == "fi":
+            key = "f:%s[%s]" % (t.args[0], ",".join(self.canon_rf(self.nf(a)) for a in t.args[1:]))
+            r = self.atom(key, t)
+        elif op == "sum":
+            bv, lo, hi, body = t.args
+            depth = self._sum_depth()
+            canon_bv = tm.var("%%bound%d" % depth, "I")
+            self._depth = depth + 1
+            try:
+                b2 = tm.substitute(body, {bv: canon_bv})
+                brf = self.nf(b2)
+            finally:
+                self._depth -= 1
+            tag = "%%bound%d" % depth
+            lo_rf, hi_rf = self.nf(lo), self.nf(hi)
+            bnd = "%s..%s" % (self.canon_rf(lo_rf), self.canon_rf(hi_rf))
+            if any(tag in k for m in brf[1] for k, _ in m):
+                key = "f:sum(%s: %s)" % (bnd, self.canon_rf(brf))
+                r = self.atom(key, tm.mk_sum(canon_bv, lo, hi, b2))
+            else:
+                # linearity: sum(c * a(q) + ...) = c * sum(a(q)) + ...  for factors c free of the bound variable
+                num = {}
+                count = self.rf_add(hi_rf, (poly_scale(lo_rf[0], -1), lo_rf[1]))
+                for m, c in brf[0].items():
+                    inside = tuple((k, e) for k, e in m if tag in k)
+                    outside = tuple((k, e) for k, e in m if tag not in k)
+                    if not inside:
+                        if count[1] != POLY_ONE:
+                            raise NFError("non-polynomial loop bounds")
+                        contrib = self.pmul({outside: c}, count[0])
+                    else:
+                        ikey = "f:sum(%s: %s)" % (bnd, self.canon_poly({inside: Q(1)}))
+                        if ikey not in self.atoms:
+                            self.atoms[ikey] = tm.mk_sum(canon_bv, lo, hi, self.poly_to_term({inside: Q(1)}))
+                        contrib = self.pmul({outside: c}, {((ikey, lf_const(1)),): Q(1)})
+                    num = poly_add(num, contrib)
+                r = (num, brf[1])
         elif op == "ite":
             raise NFError("unresolved ite in normal form")
         else:
@@ -486,6 +524,9 @@ class NF(object):
             r = ({}, POLY_ONE)
         self.cache[t.id] = r
         return r
+
+    def _sum_depth(self):
+        return getattr(self, "_depth", 0)
 
     def is_zero(self, t):
         return not self.nf(t)[0]
